@@ -76,7 +76,7 @@ RX_ONLY_OTHER = ("info0", "bk0")      # cluster id 0 is advertised by O only
 
 def alphabet():
     a = [("role", "on"), ("role", "off"),
-         ("create", "absent"), ("create", "present", 1), ("create", "present", 255), ("create", "present", "seen"),
+         ("create", "absent")] + [("create", "present", c) for c in V.DRAW_MENU] + [      # id draw resolved against the requested bounds
          ("join", "adv"), ("join", 0), ("join", "unk"),
          ("cancel",),
          ("leave", ClusterLeaveReason.NOT_PROVIDED.value), ("leave", ClusterLeaveReason.SAFETY_CONDITION.value),
@@ -472,23 +472,11 @@ class ManagerModel:
                             m.on_received_vam(make_rx("plain", None, g, "wire")[0])
                     w.ghost_k = w.k
                 lat, lon = V.pos_of(OWN)
-                draws = []
-                choice = ev[2] if len(ev) > 2 else 1
-
-                def chooser(a, b, _c=choice, _d=draws, _seen=[c for c in sorted(w.seen) if 1 <= c <= 255]):
-                    if _c == "seen":      # first draw collides with a recently received id, later draws do not
-                        v = _seen[0] if (_seen and not _d) else 200 + len(_d) % 50
-                    else:
-                        v = _c
-                    _d.append(v)
-                    return v
-                old = ENV.rand_int
-                ENV.rand_int = staticmethod(chooser)      # cluster-id draw = harness choice
-                try:
+                choice = ev[2] if len(ev) > 2 else "lo"
+                with V.Draws(choice, in_use=sorted(w.seen)) as d:      # cluster-id draw = harness choice
                     with w:
                         ret = m.try_create_cluster(lat, lon)
-                finally:
-                    ENV.rand_int = staticmethod(old)
+                asked = tuple(sorted({(q[1], q[2]) for q in d.asked}))
             elif kind == "join":
                 cid = {"adv": ADV, "unk": UNK}.get(ev[1], ev[1])
                 with w:
